@@ -15,6 +15,15 @@ CHECKS = {
              "normalised trees must be equal. Violations are reduced to minimal cases and compared with KNOWN_FINDINGS.txt.",
         note="Trusted: Marko 2.2.4 as Reader A, markdown-it-py 4.2 as Reader B, the normalisers in vf/readers.py. List tightness is compared by C10. Alphabets and bounds are finite (see evidence).",
         ref="DESIGN.md §2 C01"),
+    "C02": dict(
+        level="exploration",
+        technique="bounded-exhaustive enumeration of documents x option combinations; byte comparison of one and two formatting passes",
+        text="Every document of the mixed-token paragraph space (block look-alikes, inline constructs, typography tokens, template tags; "
+             "all separators, contexts and critical widths, both modes), of the block-sequence space and of the plaintext space is formatted "
+             "twice under a set of option combinations (all 24 cleanups/smartquotes/ellipses/list-spacing combinations in the thorough tier) "
+             "and the two outputs must be byte-identical.",
+        note="Trusted: nothing beyond the interpreter; the signature classes use Reader A only to describe a difference. Bounds in the evidence file.",
+        ref="DESIGN.md §2 C02"),
     "C05": dict(
         level="model_checking",
         technique="explicit-state model of the greedy filler, exhaustive trace enumeration + replay of every trace against the implementation",
